@@ -11,3 +11,30 @@ Lemma generated_table_has_no_unknown_shape :
      ["types.NewAccessGrant(escrowAccount, []types.Access{types.Access_Transfer})"%string])
      (row_unrecognised r)) generated_access_table = true.
 Proof. vm_compute. reflexivity. Qed.
+
+(** The rpcs of `service Msg` in the proto file, and the exported methods of msgServer with the guard
+    rows in front of each, are the documented endpoints: a new rpc (or handler) without an entry in
+    [documented_endpoints], or one whose handler reaches a different guarded keeper method, breaks
+    this. *)
+Lemma generated_rpcs_are_documented :
+  generated_marker_rpcs = map ep_rpc documented_endpoints.
+Proof. vm_compute. reflexivity. Qed.
+
+Lemma generated_endpoints_are_documented :
+  generated_marker_endpoints = map (fun e => (ep_rpc e, ep_guards e)) documented_endpoints.
+Proof. vm_compute. reflexivity. Qed.
+
+Lemma endpoints_well_placed :
+  forallb (endpoint_ok generated_access_table) documented_endpoints = true /\
+  endpoints_cover_ops = true /\ rows_all_reachable generated_access_table = true.
+Proof. vm_compute. repeat split. Qed.
+
+Lemma every_endpoint_has_a_row :
+  generated_marker_rpcs = map ep_rpc documented_endpoints /\
+  generated_marker_endpoints = map (fun e => (ep_rpc e, ep_guards e)) documented_endpoints /\
+  forallb (endpoint_ok generated_access_table) documented_endpoints = true /\
+  endpoints_cover_ops = true /\ rows_all_reachable generated_access_table = true.
+Proof.
+  split; [exact generated_rpcs_are_documented|]. split; [exact generated_endpoints_are_documented|].
+  exact endpoints_well_placed.
+Qed.
